@@ -108,7 +108,9 @@ def expected_message(tmpl, kw):
 def e2e_case(rng):
     """one end-to-end update with a fake git: returns (case, verdict)"""
     vcs_kind = rng.choice(["git", "git", "hg"])
-    fname = rng.choice(["a.txt", "sub dir/b.txt", "it's.txt", 'q"uote.txt', "-dash.txt", "$x.txt", "é.txt", "semi;colon.txt", "a b  c.txt"])
+    fname = rng.choice(["a.txt", "sub dir/b.txt", "it's.txt", 'q"uote.txt', "-dash.txt", "$x.txt", "é.txt", "semi;colon.txt", "a b  c.txt",
+                        "back\\slash.txt", "two\\\\bs.txt", "per%cent.txt", "brace{x}.txt", "{0}.txt", "hash#.txt", "amp&pipe|.txt", "`tick`.txt", "(paren).txt",
+                        "tilde~.txt", "sub\\dir/c.txt", "trailing .txt", "=eq.txt", "@at.txt", "comma,.txt"])
     body_msg = rand_value(rng, 10).replace("{", "").replace("}", "").replace("\x00", "")
     if rng.random() < 0.5:
         # the OLD/NEW shorthand is documented for the command line only: a configured message keeps these words
@@ -126,7 +128,7 @@ def e2e_case(rng):
     if not use_cli_msg:
         cfg += "commit_message = %s\n" % json.dumps(tmpl, ensure_ascii=False)
     cfg += "tag_message = %s\n" % json.dumps(tag_tmpl, ensure_ascii=False)
-    cfg += "[bumpver.file_patterns]\n\"bumpver.toml\" = ['current_version = \"{version}\"']\n%s = ['{version}']\n" % (("'" + fname + "'") if '"' in fname else json.dumps(fname, ensure_ascii=False))
+    cfg += "[bumpver.file_patterns]\n\"bumpver.toml\" = ['current_version = \"{version}\"']\n%s = ['{version}']\n" % (("'" + fname + "'") if ('"' in fname or "\\" in fname) else json.dumps(fname, ensure_ascii=False))
     case = {"kind": "e2e", "vcs": vcs_kind, "file": fname, "commit_tmpl": tmpl, "tag_tmpl": tag_tmpl, "cli_msg": use_cli_msg}
     with sandbox.Project("c12") as pr:
         pr.write_text("bumpver.toml", cfg)
